@@ -33,7 +33,8 @@ func TestSweep(t *testing.T) {
 	defer func() { rec.Flush(!t.Failed()) }()
 	for _, e := range Pairs {
 		Oracle.One(t, env, rec, "sweep", &Case{S: e.S.Name, D: e.D.Name, Xs: vals(Bounds(e))})
-		Oracle.One(t, env, rec, "sweep", &Case{S: e.S.Name, D: e.D.Name, Xs: vals(Bounds(e)), Pad: 20000})
+		Oracle.One(t, env, rec, "sweep", &Case{S: e.S.Name, D: e.D.Name, Xs: vals(Bounds(e)), Pad: 20000, Fix: 1})
+		Oracle.One(t, env, rec, "sweep", &Case{S: e.S.Name, D: e.D.Name, Xs: vals(Bounds(e)), Fix: 2})
 		for _, x := range []float64{0.5, -0.5, 1, -1, 2, -2, 0} { // single-sample buffers
 			Oracle.One(t, env, rec, "sweep", &Case{S: e.S.Name, D: e.D.Name, Xs: vals([]float64{x})})
 		}
